@@ -22,8 +22,21 @@ load:是否被装载
 */
 class filebuffer64 : public buffer64
 {
+#ifdef WENCRY_VERIF
+#ifndef WENCRY_VERIF_HBUF_CAP
+#define WENCRY_VERIF_HBUF_CAP 16
+#endif
+  // verification build: small compile-time capacity, refill size (64-byte units, <= HBUF_CAP) set at run time
+public:
+  static const u32_t HBUF_CAP = WENCRY_VERIF_HBUF_CAP;
+  static u32_t HBUF_SZ;
+
+private:
+  u8_t b[HBUF_CAP][0x40];
+#else
   static const u32_t HBUF_SZ = 0x80000;
   u8_t b[HBUF_SZ][0x40];
+#endif
   u8_t extra_entry[0x40];
   bool has_extra;
   u32_t total, now;
